@@ -192,7 +192,13 @@ def read_text(text, fast=False):
         ps = _state['PS'].last
         sidx = getattr(ps, 'sidx', None)
         out['sidx'] = sidx
-        if sidx != n:
+        if not isinstance(sidx, int):
+            # no parse state was made during this reading (or it keeps no
+            # position): how far the text was consumed cannot be seen, so
+            # nothing is claimed about it
+            out['sidx'] = None
+            out['tail_oracle'] = 'unavailable'
+        elif sidx != n:
             head = text.lstrip()[:8].split(' ')[0].split('{')[0]
             top = 'rule' if out['qtype'] == 'ReactionQuery' else 'fragment'
             viols.append(core.violation(
@@ -203,10 +209,11 @@ def read_text(text, fast=False):
 
 
 def _event(out):
-    steps = None if out.get('kind') == 'hang' else out.get('steps')
-    return core.digest([out.get('kind'), steps, out.get('lineno'),
-                        out.get('colno'), out.get('exc'), out.get('sidx'),
-                        out.get('where')])
+    # the outcome, not its cost: the number of simulated steps is kept as a
+    # statistic only (a correct memo inside the reader may make the second
+    # reading of a text cheaper than the first)
+    return core.digest([out.get('kind'), out.get('lineno'),
+                        out.get('colno'), out.get('exc'), out.get('where')])
 
 
 # --------------------------------------------------------------- generation
@@ -400,6 +407,9 @@ def run_task(task):
                 pr['error_at_column_1'] = pr.get('error_at_column_1', 0) + 1
         if out.get('escalated'):
             pr['budget_escalation_used'] = pr.get('budget_escalation_used', 0) + 1
+        if out.get('tail_oracle'):
+            pr['tail_oracle_unavailable'] = \
+                pr.get('tail_oracle_unavailable', 0) + 1
         if len(res['samples']) < 2 and it['faults'] and nontrivial:
             res['samples'].append({'text': it['text'][:200],
                                    'base': it['base'],
